@@ -158,6 +158,11 @@ def execute(case):
             if loaded is not None:
                 s = builder.Session(loaded, layout=layout)
             log.append((i, "save_load", loaded is not None, seeds.digest(sorted((repr(k), repr(v)) for k, v in before.items()))))
+        elif op["k"] == "save" and op.get("abort") is not None:
+            # save attempts that are cut short at every write index / writers abandoned after every chunk
+            out = s.apply({"k": "bad", "kind": builder.BAD_KINDS.index("aborted_save_sweep" if op["abort"] & 1 else "abandoned_writer_sweep"), "m": 0, "v": op["abort"] >> 1})
+            probes["op:aborted_saves"] = probes.get("op:aborted_saves", 0) + 1
+            log.append((i, out))
         elif op["k"] == "save":
             # an intermediate save without restart (users save while they keep editing)
             try:
@@ -203,6 +208,8 @@ def generate(seed, i, tier="quick"):
             ops += [builder.gen_op(r, w) for _ in range(n)]
         if r.random() < 0.35:
             ops.insert(len(ops) - r.randint(0, min(n, 6)), {"k": "save"})
+        if r.random() < 0.15:
+            ops.insert(len(ops) - r.randint(0, min(n, 12)), {"k": "save", "abort": r.getrandbits(30)})
         ops.append({"k": "save_load", "scribble": r.randrange(1000)} if r.random() < 0.3 else {"k": "save_load"})
     # swarm: half of the runs concentrate their slot edits on one module (position 1-3), so that
     # joint states of one module's type-specific payload are reached, not only single edits
